@@ -48,6 +48,8 @@ C07_THMS = ["Voi.Props.C07." + n for n in """step_eq step_eq_core step_eq_zmod s
 scalarMult_eq_rfc scalarMult_eq_rfc_32 checked_error_iff checked_eq checked_ok checked_basepoint_error_iff clampScalar_eq_decodeScalar
 clampScalar_lt clampScalar_testBit clampScalar_testBit_32 edPrivToX25519_eq edPublicKeyToX25519_eq dh_symmetric_transfer toZ_add toZ_mul toZ_pow toZ_inv""".split()]
 
+C17_THMS = ["Voi.Props.C17." + n for n in """bits_value bits_value_mod naf_value naf_defined naf_shape r16_value r16_bounds r16_bounds_wide r2w_value r2w_defined r2w_bounds r16_abs_le_8 naf5_digits naf8_digits r2w_bucket_index bits_ok naf_shape_ok r16_ok r2w_ok""".split()]
+
 PROPS = {
     "C01": dict(
         level="translation_validation",
@@ -74,7 +76,7 @@ PROPS = {
                 theorems={"Voi.Props.LatticeInv": LAT_INV, "Voi.Props.LatticeRefine": LAT_REF}),
     "C18": dict(level="proof", streams=[("C2", 3000), ("C1", 800)], configs_quick=Q4, configs_thorough=T4,
                 theorems={"Voi.Props.LRUInv": LRU_THMS, "Voi.Props.LinearizeSound": LIN_THMS}),
-    "C17": dict(level="translation_validation", streams=[("R1", 4000)], configs_quick=["default", "force32bit"], configs_thorough=T4, theorems={}),
+    "C17": dict(level="proof", streams=[("R1", 4000)], configs_quick=["default", "force32bit"], configs_thorough=T4, theorems={"Voi.Props.C17": C17_THMS}),
 }
 PROPS["C19"] = dict(level="proof", streams=[("P1", 26000)], configs_quick=Q4, configs_thorough=T4, thorough_mult=1,
                     theorems={"Voi.Props.TotalInv": TOTAL_THMS})
